@@ -28,6 +28,11 @@ Tpl == {
   BndRef(<<"pk","mod","fn">>, "y", <<"pk","mod","Cls">>), BndRef(<<"m","fn">>, "y", <<"m","Cls">>),
   BndRef(<<"pk","mod","fn">>, "y", <<"zz","fn">>), Bnd(<<"pk","sub","mod","nope">>, "x", "1"),
   [t |-> "enable"] }
+\* the sibling family: plain imports of modules that share package prefixes and leaf names, every order
+TplSib == { Imp("plain", <<"pk","sub","mod">>, ""), Imp("plain", <<"pk","sib","mod">>, ""), Imp("plain", <<"pk","mod">>, ""),
+  Bnd(<<"pk","sub","mod","fn">>, "x", "5"), Bnd(<<"pk","sib","mod","fn">>, "x", "6"), Bnd(<<"pk","mod","fn">>, "x", "1"),
+  Bnd(<<"pk","mod","Cls","meth">>, "x", "2") }
+SkipFalseOnly == { [mode |-> "false", names |-> {}] }
 NoPrev == { <<>> }
 \* earlier files: one that registered fn through pk.mod, one that registered pk.sub.mod's fn through a from-import
 Prevs == { <<>>, << Imp("plain", <<"pk","mod">>, ""), Bnd(<<"pk","mod","fn">>, "x", "9") >>,
